@@ -6,6 +6,7 @@ import (
 	"flag"
 	"fmt"
 	"os"
+	"strings"
 
 	"verifharness/rep"
 )
@@ -21,7 +22,11 @@ func main() {
 	seed := flag.Int64("seed", 0, "")
 	deadline := flag.Int("deadline", 0, "seconds; 0 = none")
 	replay := flag.String("replay", "", "replay file")
+	part := flag.String("part", "", "named part of a property (key prop/part)")
 	flag.Parse()
+	if *part != "" {
+		*prop = *prop + "/" + *part
+	}
 	if *replay != "" {
 		os.Exit(doReplay(*replay))
 	}
@@ -30,7 +35,11 @@ func main() {
 		fmt.Fprintln(os.Stderr, "unknown property", *prop)
 		os.Exit(3)
 	}
-	c := rep.New(*prop, "seq", *tier, *shard, *nshards, *seed, *deadline)
+	pid := *prop
+	if i := strings.Index(pid, "/"); i >= 0 {
+		pid = pid[:i]
+	}
+	c := rep.New(pid, "seq", *tier, *shard, *nshards, *seed, *deadline)
 	f(c)
 	if err := c.Write(*out); err != nil {
 		fmt.Fprintln(os.Stderr, err)
